@@ -1412,17 +1412,21 @@ class Encoder:
 
     RI_CALL = re.compile(r"^(?:jiff::)?(?:util::)?(?:rangeint::)?(ri(?:8|16|32|64|128))::<(-?\d+|i\d+::MIN), (-?\d+|i\d+::MAX)>::(\w+)(?:::<(.*)>)?$")
 
-    RI_CONV = re.compile(r"^<(ri(?:8|16|32|64|128))<(-?\d+), (-?\d+)> as (?:\w+::)*(RInto|RFrom)<(ri(?:8|16|32|64|128))<(-?\d+), (-?\d+)>>>::(rinto|rfrom)$")
+    RI_CONV = re.compile(r"^<((?:\w+::)*Constant|ri(?:8|16|32|64|128)<(?:-?\d+|i\d+::MIN), (?:-?\d+|i\d+::MAX)>) as (?:\w+::)*(RInto|RFrom)<((?:\w+::)*Constant|ri(?:8|16|32|64|128)<(?:-?\d+|i\d+::MIN), (?:-?\d+|i\d+::MAX)>)>>::(rinto|rfrom)$")
 
     def rangeint_conv(self, state, func, args):
         m = self.RI_CONV.match(func.strip())
         if not m or self.debug_assertions or len(args) != 1:
             return None
-        tgt = m.group(5) if m.group(4) == "RInto" else m.group(1)
+        tgt = m.group(3) if m.group(2) == "RInto" else m.group(1)
+        mt = re.match(r"^(ri(?:8|16|32|64|128))<", tgt)
+        if not mt:
+            return None
+        tgt = mt.group(1)
         v = self.operand(state, args[0])
         if not (isinstance(v, VAgg) and 0 in v.f and isinstance(v.f[0], VInt)):
             return None
-        self.notes.append("hand-modelled ranged-integer conversion: %s" % m.group(8))
+        self.notes.append("hand-modelled ranged-integer conversion: %s" % m.group(4))
         return ("value", VAgg({0: self.cast(v.f[0], "i" + tgt[2:], "IntToInt")}, tag=tgt))
 
     RI_OP = re.compile(r"^<(ri(?:8|16|32|64|128))<(-?\d+|i\d+::MIN), (-?\d+|i\d+::MAX)> as (?:\w+::)*(Add|Sub|Mul|Div|Rem|Neg|AddAssign|SubAssign|MulAssign|DivAssign|RemAssign)(?:<.*>)?>::(\w+)$")
